@@ -99,6 +99,15 @@ Fixpoint file_set (f : N) (v : bool) (l : list (N * bool)) : list (N * bool) :=
 Definition visit (s : site) (st : rstate) : rstate :=
   {| r_rest := r_rest st; r_last := r_last st; r_clock := r_clock st; r_files := r_files st; r_sites := s :: r_sites st |}.
 
+(* results of a parallel section are handed over in completion order: by the
+   index of each branch's last observed call (stable for branches without calls) *)
+Fixpoint insert_by_idx {X} (x : Z * X) (l : list (Z * X)) : list (Z * X) :=
+  match l with
+  | [] => [x]
+  | y :: r => if fst y <=? fst x then y :: insert_by_idx x r else x :: l
+  end.
+Definition sort_by_idx {X} (l : list (Z * X)) : list (Z * X) := fold_left (fun acc x => insert_by_idx x acc) l [].
+
 Fixpoint replay {A} (p : prog A) (st : rstate) : rresult A :=
   match p with
   | Ret a => RDone a st
@@ -127,12 +136,12 @@ Fixpoint replay {A} (p : prog A) (st : rstate) : rresult A :=
       (* branches are replayed one after another over the shared remainder; each
          starts from the index reached before the fork; afterwards the join
          continues from the maximal index / time reached by any branch *)
-      (fix branches (bs : list (host * prog resp)) (cur : rstate) (mx_last mx_clock : Z) (acc : list (host * resp)) : rresult A :=
+      (fix branches (bs : list (host * prog resp)) (cur : rstate) (mx_last mx_clock : Z) (acc : list (Z * (host * resp))) : rresult A :=
          match bs with
-         | [] => replay (k (rev acc)) {| r_rest := r_rest cur; r_last := mx_last; r_clock := mx_clock; r_files := r_files cur; r_sites := r_sites cur |}
+         | [] => replay (k (map snd (sort_by_idx (rev acc)))) {| r_rest := r_rest cur; r_last := mx_last; r_clock := mx_clock; r_files := r_files cur; r_sites := r_sites cur |}
          | (h, b) :: bs' =>
              match replay b {| r_rest := r_rest cur; r_last := r_last st0; r_clock := r_clock st0; r_files := r_files cur; r_sites := r_sites cur |} with
-             | RDone r st' => branches bs' st' (Z.max mx_last (r_last st')) (Z.max mx_clock (r_clock st')) ((h, r) :: acc)
+             | RDone r st' => branches bs' st' (Z.max mx_last (r_last st')) (Z.max mx_clock (r_clock st')) ((r_last st', (h, r)) :: acc)
              | RPanic s' st' => RPanic s' st'
              | RMismatch s' c g st' => RMismatch s' c g st'
              end
